@@ -263,6 +263,8 @@ func (sc c09Scenario) features(req int) string {
 		f = append(f, "requesting document analysed a second time")
 	case "discard":
 		f = append(f, "the edit was discarded by closing the file")
+	case "includes-by-edit":
+		f = append(f, "the root's include lines arrived with an edit")
 	}
 	return strings.Join(f, ", ")
 }
@@ -335,6 +337,13 @@ func c09Run(c *core.Ctx, dir string, sc c09Scenario, only *c09Case) {
 		if len(reqOcc) == 0 && !(sc.EditFile == req) {
 			continue
 		}
+		byEdit := sc.History == "includes-by-edit" && sc.Root && sc.EditFile != 0
+		mainPath := filepath.Join(dir, c09Files[0])
+		stripped := strings.ReplaceAll(disk[0].Text, "include ", "; nclude ")
+		if byEdit {
+			// the workspace starts from a root journal without its include lines
+			_ = os.WriteFile(mainPath, []byte(stripped), 0o644)
+		}
 		s := wire.New()
 		root := ""
 		if sc.Root {
@@ -342,6 +351,14 @@ func c09Run(c *core.Ctx, dir string, sc c09Scenario, only *c09Case) {
 		}
 		s.Initialize(wire.InitOpts{Root: root})
 		s.Initialized()
+		mainOpened := false
+		if byEdit {
+			// ... and the include lines arrive with an edit of the open root journal
+			s.DidOpen(uriOf(0), stripped)
+			s.DidChangeFull(uriOf(0), current(0).Text, 2)
+			_ = os.WriteFile(mainPath, []byte(disk[0].Text), 0o644)
+			mainOpened = true
+		}
 		wasOpen := open[req]
 		open[req] = true // the requesting document is open (with its editor text, = disk unless edited)
 		kept := false
@@ -359,7 +376,7 @@ func c09Run(c *core.Ctx, dir string, sc c09Scenario, only *c09Case) {
 			kept = true
 		}
 		for f := 0; f < sc.N; f++ {
-			if open[f] && !(kept && f == req) {
+			if open[f] && !(kept && f == req) && !(mainOpened && f == 0) {
 				s.DidOpen(uriOf(f), current(f).Text)
 			}
 		}
@@ -644,6 +661,10 @@ func checkC09(c *core.Ctx) {
 												c09Run(c, dir, h, nil)
 												if ef >= 0 {
 													h.History = "discard"
+													c09Run(c, dir, h, nil)
+												}
+												if root && ef != 0 {
+													h.History = "includes-by-edit"
 													c09Run(c, dir, h, nil)
 												}
 											}
